@@ -1638,6 +1638,8 @@ class Engine:
         # --- arbitrary iteration
         s1 = st.fork()
         self.havoc(s1, (names | tnames) - {idx, "__i"}, heapmut, spec, "L%d" % ordn)
+        if getattr(spec, "after_havoc", None):
+            spec.after_havoc(self, s1, "L%d" % ordn)
         i = z3.Int(fresh_name("i!L%d" % ordn))
         # names first assigned inside the body: they carry a value from the previous iteration (unbound in the first one)
         for nm_ in sorted(names - set(st.env)):
@@ -1666,6 +1668,8 @@ class Engine:
         # --- after the loop (ran to completion)
         s2 = st.fork()
         self.havoc(s2, (names | tnames) - {idx, "__i"}, heapmut, spec, "X%d" % ordn)
+        if getattr(spec, "after_havoc", None):
+            spec.after_havoc(self, s2, "X%d" % ordn)
         for nm_ in sorted(names - set(st.env)):
             if nm_ in spec.havoc_types:
                 s2.env[nm_] = self.fresh(spec.havoc_types[nm_], "%s!X%d" % (nm_, ordn), s2)
@@ -1701,6 +1705,8 @@ class Engine:
             names = set(spec.modifies)
         s1 = st.fork()
         self.havoc(s1, names, heapmut, spec, "W%d" % ordn)
+        if getattr(spec, "after_havoc", None):
+            spec.after_havoc(self, s1, "W%d" % ordn)
         for nm, c in spec.invariant(Spec(self, s1), s1):
             s1.assume(c)
         c1 = self.truth(self.ev(node.test, s1), s1)
@@ -1722,6 +1728,8 @@ class Engine:
             self.ex_block(node.body, s1, K1)
         s2 = st.fork()
         self.havoc(s2, names, heapmut, spec, "Y%d" % ordn)
+        if getattr(spec, "after_havoc", None):
+            spec.after_havoc(self, s2, "Y%d" % ordn)
         for nm, c in spec.invariant(Spec(self, s2), s2):
             s2.assume(c)
         c2 = self.truth(self.ev(node.test, s2), s2)
@@ -1824,7 +1832,10 @@ class Engine:
     def solve(self, ob, extra_axioms=()):
         t0 = time.time()
         r = z3.unknown
+        trivially_false = z3.is_false(z3.simplify(ob.goal))
         for opts in self.solver_opts:
+            if trivially_false:
+                opts = dict(opts, _timeout_ms=500)       # nothing to prove unless the path is infeasible: a short budget is enough
             s = z3.Solver()
             s.set("timeout", int(opts.get("_timeout_ms", self.timeout_ms)))
             for k_, v_ in opts.items():
